@@ -18,6 +18,7 @@ Exhaustive enumeration (driver E1) of whole families of nested dictionaries:
 The reference model is mc/ref/c07c08_dicts.py (containment, greatest lower bound, difference in two
 independent formulations that are cross-checked in a self-check shard, merge).
 """
+import itertools
 import json
 
 import lena.core
@@ -111,6 +112,8 @@ def describe(tier):
 
 def shards(tier):
     out = [{"kind": "selfcheck", "bound": "reference-selfcheck"}, {"kind": "nary", "bound": "small"}]
+    for start in range(len(HIST_STARTS)):
+        out.append({"kind": "histories", "start": start, "bound": "update-histories"})
     fams = _families(tier)
     order = ["chain3", "ab1", "ab3-a", "ab2"]
     for name in order:
@@ -561,6 +564,139 @@ def selfcheck(res, tier):
     res.case(nontrivial=False)
 
 
+# -- operation histories over two dictionaries ----------------------------------------------------------
+# update_recursively accepts a dot-separated string (with or without an explicit value) for *other*.
+# The string form must mean the same as the dictionary it denotes, whatever was done before with other
+# dictionaries: every sequence of updates of two dictionaries c1, c2 is compared, after every step, with
+# the reference merge applied to plain copies (start from non-initial states; calls that share a parser).
+
+HIST_STARTS = [({}, {}), ({"a": 0}, {"b": {"a": 1}}), ({"a": {"b": 1}}, {"a": {}})]
+HIST_OTHERS = [("s", "a.b"), ("s", "a.b.c"), ("s", "b.a"), ("sv", "a.b", 7), ("sv", "a.b", {"c": 1}),
+               ("sv", "a", 0), ("d", {"a": {"b": "x", "c": 2}}), ("d", {"a": {"b": {"c": 1}}}), ("d", {"b": 5})]
+
+
+def _denoted(o):
+    """The dictionary a form of *other* denotes (own parser)."""
+    if o[0] == "d":
+        return R.fresh(o[1])
+    parts = o[1].split(".")
+    val = R.fresh(o[2]) if o[0] == "sv" else parts.pop()
+    for k in reversed(parts):
+        val = {k: val}
+    return val
+
+
+def _fails_in_fresh_process(case):
+    """Replay *case* through `./check C07 --replay` in a new interpreter: True iff it is a violation
+    there. A failure that depends on what this worker process did before (module-level state in the
+    code under test) is not trusted until it is reproduced from a fresh interpreter."""
+    import os
+    import subprocess
+    import sys
+    import tempfile
+    fd, path = tempfile.mkstemp(prefix="lena-verif-c07-", suffix=".json")
+    try:
+        with os.fdopen(fd, "w") as f:
+            json.dump({"case": dict(case, in_process=True)}, f)
+        root = os.path.dirname(os.path.dirname(os.path.dirname(os.path.abspath(__file__))))
+        p = subprocess.run([sys.executable, "-m", "mc.core", "C07", "--replay", path], cwd=root,
+                           stdout=subprocess.DEVNULL, stderr=subprocess.DEVNULL)
+        return p.returncode == 1
+    finally:
+        os.remove(path)
+
+
+def _self_contained(start, prefix, hist):
+    """A short list of histories, ending with *hist*, whose last history fails when the list is
+    executed from a fresh interpreter, or None. The polluting earlier history is located by bisection
+    over the histories this worker executed before; every trial is a fresh interpreter."""
+    def seq(hs):
+        return {"kind": "history-seq", "law": "update-history", "start": start,
+                "hists": [[list(e) for e in h] for h in hs]}
+
+    def trial(hs):
+        return _fails_in_fresh_process(seq(hs))
+
+    if trial([hist]):
+        return seq([hist])
+    if not trial(list(prefix) + [hist]):
+        return None
+    lo, hi = 0, len(prefix)          # smallest k such that prefix[:k] + [hist] fails
+    while lo < hi:
+        mid = (lo + hi) // 2
+        if trial(list(prefix[:mid]) + [hist]):
+            hi = mid
+        else:
+            lo = mid + 1
+    keep = list(prefix[:lo])
+    if keep and trial([keep[-1], hist]):
+        return seq([keep[-1], hist])
+    i = 0
+    while i < len(keep) - 1 and len(keep) <= 40:      # one-at-a-time removal (the last one is needed)
+        rest = keep[:i] + keep[i + 1:]
+        if trial(rest + [hist]):
+            keep = rest
+        else:
+            i += 1
+    return seq(keep + [hist])
+
+
+def check_history(res, start, hist, prefix=None):
+    """hist: list of (target index, index into HIST_OTHERS). Judges every step."""
+    real = [R.fresh(HIST_STARTS[start][0]), R.fresh(HIST_STARTS[start][1])]
+    model = [R.fresh(HIST_STARTS[start][0]), R.fresh(HIST_STARTS[start][1])]
+    case = {"kind": "history", "law": "update-history", "start": start, "hist": [list(h) for h in hist]}
+    for step, (t, oi) in enumerate(hist):
+        o = HIST_OTHERS[oi]
+        model[t] = R.merge(model[t], _denoted(o))
+        try:
+            if o[0] == "d":
+                update_recursively(real[t], R.fresh(o[1]))
+            elif o[0] == "s":
+                update_recursively(real[t], o[1])
+            else:
+                update_recursively(real[t], o[1], R.fresh(o[2]))
+            err = None
+        except Exception as e:
+            err = _exc_name(e)
+        last = step == len(hist) - 1
+        if last:
+            res.case(nontrivial=len(hist) >= 2 and any(HIST_OTHERS[i][0] != "d" for _, i in hist))
+            _outcome(res, "H", real)
+        if err is not None or real != model:
+            if last:      # shorter prefixes are judged as their own histories
+                cause = {"law": "update-history", "form": o[0],
+                         "wrong": "raised" if err else
+                         ("updated" if real[t] != model[t] else "the-other-dictionary"),
+                         "earlier_string_updates": any(HIST_OTHERS[i][0] != "d" for _, i in hist[:-1])}
+                ckey = json.dumps(cause, sort_keys=True)
+                seen = res.__dict__.setdefault("_c07_shrunk", {})
+                if prefix is not None and ckey in seen:
+                    cause = seen[ckey]          # counted with the first failure of this kind
+                elif prefix is not None:
+                    # first failure of this kind in this worker: make it self-contained (it may depend
+                    # on histories executed earlier in this process)
+                    sc = _self_contained(start, prefix, hist)
+                    if sc is not None:
+                        case = sc
+                        cause["needs_earlier_histories"] = len(sc["hists"]) - 1
+                    seen[ckey] = cause
+                res.violation(case, {"raised": err} if err else {"c1": R.fresh(real[0]), "c2": R.fresh(real[1])},
+                              {"c1": model[0], "c2": model[1]}, cause)
+            return
+    return
+
+
+def run_histories(res, start, maxlen):
+    events = [(t, oi) for t in (0, 1) for oi in range(len(HIST_OTHERS))]
+    done = []
+    for n in range(1, maxlen + 1):
+        for hist in itertools.product(events, repeat=n):
+            check_history(res, start, hist, prefix=done)
+            done.append(hist)
+    res.sample({"kind": "history", "start": start, "hist": [[0, 1], [0, 6], [1, 1]]}, 1)
+
+
 # -- runner interface ---------------------------------------------------------------------------------
 
 def run_shard(p, tier):
@@ -580,6 +716,8 @@ def run_shard(p, tier):
             for j, p2 in enumerate(fam):
                 check_pair(res, p1, p2, spec[2], keys, commut=(i <= j))
             res.sample({"kind": "pair", "d1": p1, "d2": fam[(i * 7 + 3) % len(fam)], "level": -1}, 3)
+    elif kind == "histories":
+        run_histories(res, p["start"], 4 if tier == "thorough" else 3)
     elif kind == "triples":
         spec = _triple_families(tier)[p["fam"]]
         fam = _family(spec)
@@ -614,6 +752,36 @@ def replay(case):
         check_triple(res, R.fresh(case["d1"]), R.fresh(case["d2"]), R.fresh(case["d3"]), (case["level"],))
     elif kind == "nary":
         check_nary(res)
+    elif kind == "history":
+        check_history(res, case["start"], [tuple(h) for h in case["hist"]])
+    elif kind == "history-seq":
+        if case.get("in_process"):
+            for h in case["hists"]:
+                res = Result()          # only the last history is judged; the others set the scene
+                check_history(res, case["start"], [tuple(e) for e in h])
+            out = result_violations(res)
+            for v in out:
+                v["case"] = {k: v2 for k, v2 in case.items() if k != "in_process"}
+            return out
+        # always from a fresh interpreter: the point of such a case is the state earlier histories left
+        import os
+        import subprocess
+        import sys
+        import tempfile
+        fd, path = tempfile.mkstemp(prefix="lena-verif-c07-", suffix=".json")
+        try:
+            with os.fdopen(fd, "w") as f:
+                json.dump({"case": dict(case, in_process=True)}, f)
+            root = os.path.dirname(os.path.dirname(os.path.dirname(os.path.abspath(__file__))))
+            pr = subprocess.run([sys.executable, "-m", "mc.core", "C07", "--replay", path], cwd=root,
+                                stdout=subprocess.PIPE, stderr=subprocess.STDOUT, text=True)
+        finally:
+            os.remove(path)
+        if pr.returncode == 1:
+            return [{"case": case, "cause": {"law": "update-history"}, "observed": pr.stdout[-1500:],
+                     "expected": "every history equals the reference merge when executed in this order "
+                                 "from a fresh interpreter"}]
+        return []
     return [v for v in result_violations(res) if v["case"].get("law") == law]
 
 
